@@ -97,6 +97,9 @@ def build(det, p, values=None, scale=None):
 def _val_stat(values):
     """statistic = a free real named by the symbolic values of the segment it is handed"""
     from .scorers import UFCost
+    from symnp.core import is_sym
+    if not any(is_sym(v) for v in values):
+        return float(np.mean(np.asarray(values, dtype=float)))      # concrete side datasets (C10) must not fork
     return SymReal(z3.Real("stat[" + UFCost.rows_key([[v] for v in values]) + "]"))
 
 
